@@ -51,7 +51,7 @@ REGISTRY = dict(
           "Illegal calls are excluded by hypothesis (call_targets_ok: indices in range, one action / options entry per sub-environment): on a too-short action list DummyVecEnv raises IndexError while "
           "SubprocVecEnv.step blocks (zip) - outside the quantifier, reported. C02_worker_determinism holds for any deterministic worker function (the modelling assumption), it is not a fact about the code. "
           "Delays are injected in the sub-environments' step() and reset() only. "
-          "Quick tier: start method fork, n_envs 1-3; forkserver/spawn only in the thorough tier. Known finding F10 (reward dtype) reproduced from corpus/C02.jsonl. "
+          "Quick tier: start method fork, n_envs 1-3; forkserver/spawn only in the thorough tier. Known finding F10, signature reward-dtype-float32-vs-float64 (DummyVecEnv returns float32 rewards, SubprocVecEnv float64: a reward such as 0.1 compares unequal), reproduced from corpus/C02.jsonl. "
           "All C02 theorems are closed under the global context."),
     technique="machine-checked proof in Coq (simulation invariant over all schedules, induction over programs) + regenerated communication skeleton + differential lock-step correspondence with injected delays",
 )
